@@ -645,7 +645,10 @@ func BVAdd(a, b *Term) *Term {
 	if isZero(b) {
 		return a
 	}
-	// structured offsets: concat(hi, lo) + c stays a concat when the low part absorbs c without carry
+	if a.Op == "const" && b.Op != "const" {
+		a, b = b, a
+	}
+	// structured offsets: concat(hi, lo) + c stays a concat
 	if b.Op == "const" && a.Op == "concat" && a.Args[1].Op == "const" {
 		// exact: split the sum of the low part and the constant into carry-into-high and new low part
 		lw := a.Args[1].S.W
@@ -654,21 +657,51 @@ func BVAdd(a, b *Term) *Term {
 		low := new(big.Int).And(sum, mask(lw))
 		return Concat(BVAdd(a.Args[0], BVBig(carry, a.Args[0].S.W)), BVBig(low, lw))
 	}
-	// a + (b + c) with c constant: keep constants outermost
-	if b.Op == "bvadd" && b.Args[1].Op == "const" && a.Op != "const" {
-		return BVAdd(BVAdd(a, b.Args[0]), b.Args[1])
+	if a.Op == "const" && b.Op == "const" {
+		return BVBig(new(big.Int).Add(a.Val, b.Val), a.S.W)
 	}
-	if a.Op == "const" && b.Op == "concat" && b.Args[1].Op == "const" {
-		return BVAdd(b, a)
+	if a.S != b.S {
+		panic(fmt.Sprintf("bvadd sort mismatch %s vs %s", a.S, b.S))
 	}
-	// normalise (x + c1) + c2
-	if b.Op == "const" && a.Op == "bvadd" && a.Args[1].Op == "const" {
-		return BVAdd(a.Args[0], BVBig(new(big.Int).Add(a.Args[1].Val, b.Val), a.S.W))
+	// canonical sums: flatten, add the constants, order the other addends, constant outermost
+	var adds []*Term
+	c := new(big.Int)
+	var flat func(t *Term)
+	flat = func(t *Term) {
+		if t.Op == "bvadd" && len(t.Args) == 2 {
+			flat(t.Args[0])
+			flat(t.Args[1])
+			return
+		}
+		if t.Op == "const" {
+			c.Add(c, t.Val)
+			return
+		}
+		adds = append(adds, t)
 	}
-	if a.Op == "const" && b.Op != "const" {
-		a, b = b, a
+	flat(a)
+	flat(b)
+	sort.SliceStable(adds, func(i, j int) bool { return adds[i].id < adds[j].id })
+	w := a.S.W
+	c.And(c, mask(w))
+	var r *Term
+	for _, t := range adds {
+		if r == nil {
+			r = t
+		} else {
+			r = intern(&Term{Op: "bvadd", Args: []*Term{r, t}, S: t.S})
+		}
 	}
-	return bvbin("bvadd", a, b, func(x, y *big.Int, w int) *big.Int { return new(big.Int).Add(x, y) })
+	if r == nil {
+		return BVBig(c, w)
+	}
+	if c.Sign() != 0 {
+		if r.Op == "concat" && r.Args[1].Op == "const" {
+			return BVAdd(r, BVBig(c, w))
+		}
+		r = intern(&Term{Op: "bvadd", Args: []*Term{r, BVBig(c, w)}, S: r.S})
+	}
+	return r
 }
 func BVSub(a, b *Term) *Term {
 	if isZero(b) {
@@ -1162,15 +1195,59 @@ func (p *printer) expr(t *Term, bmemo map[*Term]bool) string {
 		for _, b := range t.BVs {
 			bs = append(bs, fmt.Sprintf("(%s %s)", smtName(b.Name), b.S))
 		}
+		// shared subterms that mention bound variables cannot be hoisted to define-funs: bind them with let
+		cnt := map[*Term]int{}
+		var order []*Term
+		var walk func(u *Term)
+		walk = func(u *Term) {
+			if !p.hasBound(u, bmemo) || u.Op == "var" {
+				return
+			}
+			cnt[u]++
+			if cnt[u] > 1 {
+				return
+			}
+			for _, a := range u.Args {
+				walk(a)
+			}
+			order = append(order, u)
+		}
+		walk(t.Args[0])
+		var scoped []*Term
+		var lets []string
+		for _, u := range order {
+			if cnt[u] > 1 && u != t.Args[0] {
+				if _, ok := p.done[u]; ok {
+					continue
+				}
+				e := p.expr(u, bmemo)
+				if len(e) < 24 {
+					continue
+				}
+				n := fmt.Sprintf("l!%d", u.id)
+				lets = append(lets, fmt.Sprintf("(let ((%s %s)) ", n, e))
+				p.done[u] = n
+				scoped = append(scoped, u)
+			}
+		}
+		body := p.expr(t.Args[0], bmemo)
 		if len(t.Args) > 1 {
 			var ps []string
 			for _, a := range t.Args[1:] {
 				ps = append(ps, p.expr(a, bmemo))
 			}
-			s = fmt.Sprintf("(%s (%s) (! %s :pattern (%s)))", t.Op, strings.Join(bs, " "), p.expr(t.Args[0], bmemo), strings.Join(ps, " "))
-		} else {
-			s = fmt.Sprintf("(%s (%s) %s)", t.Op, strings.Join(bs, " "), p.expr(t.Args[0], bmemo))
+			body = fmt.Sprintf("(! %s :pattern (%s))", body, strings.Join(ps, " "))
 		}
+		s = fmt.Sprintf("(%s (%s) %s%s%s)", t.Op, strings.Join(bs, " "), strings.Join(lets, ""), body, strings.Repeat(")", len(lets)))
+		// let names and everything printed inside (which may mention them) are only valid inside this quantifier
+		for _, u := range order {
+			delete(p.done, u)
+		}
+		for _, u := range scoped {
+			delete(p.done, u)
+		}
+		delete(p.done, t.Args[0])
+		return s
 	case "uf":
 		p.ufs[t.Name] = true
 		if len(t.Args) == 0 {
